@@ -98,10 +98,21 @@ class Frame:
             k.same(arr, old_val, label + ": %s holds identical values" % name)
 
 
+def snapshot(k, x):
+    """Deep copy of the numeric content of a (nested) result."""
+    if isinstance(x, (list, tuple)):
+        return [snapshot(k, y) for y in x]
+    if isinstance(x, k.np.ndarray):
+        return k.np.array(x)
+    return x
+
+
 def twice(k, f, label):
     a = f()
+    first = snapshot(k, a)            # the values the first call returned, copied BEFORE the second call
     b = f()
-    k.same(a, b, label + ": a second call returns identical values")
+    k.same(b, first, label + ": a second call returns identical values")
+    k.same(a, first, label + ": what the first call returned is not modified by the second call")
     return a
 
 
